@@ -13,7 +13,9 @@ CODECS = ['ber', 'der', 'per', 'uper', 'oer', 'jer', 'xer']
 
 def profile():
     p = gen.Profile(max_types=4, max_depth=3, ext_implied=True, root2=False)
-    # weight extensible constructs
+    # weight extensible constructs, SET in particular (its components are re-ordered by tag)
+    p.ext_rate = 70
+    p.constructed = p.constructed + ['SET', 'SET', 'SEQUENCE', 'CHOICE']
     return p
 
 
